@@ -80,7 +80,11 @@ def load_dcop_from_file(filenames: Union[str, Iterable[str]]):
     content = ""
     main_dir = None
 
-    if not isinstance(filenames, CollectionIterable):
+    # a single file name (str or path) is not a collection of file names,
+    # even though a str is iterable
+    if isinstance(filenames, (str, pathlib.PurePath)) or not isinstance(
+        filenames, CollectionIterable
+    ):
         filenames = [filenames]
 
     for filename in filenames:
